@@ -1,10 +1,12 @@
 (* Properties/C09.v — self-description is a fixed point.
-   Statements only; proofs in Proofs/C09Describe.v, C09Fixpoint.v, C09Plugin.v, C09Behaviour.v, C09Behaviour2.v, C09Transport.v, C09Link.v.  Model: Schema/Describe.v (`describe` = SelfSerialize,
+   Statements only; proofs in Proofs/C09Describe.v, C09Fixpoint.v, C09Plugin.v, C09Behaviour.v, C09Behaviour2.v, C09Transport.v, C09Link.v,
+   C09AccBase.v, C09AccRe.v, C09AccTable.v, C09AccReader.v, C09AccReader2.v, C09AccReader3.v, C09AccPlugin.v (the generated meta-schema table, Schema/MetaTable.v).  Model: Schema/Describe.v (`describe` = SelfSerialize,
    `rebuild` = UnserializeScope, `rebuild_plugin` = UnserializeSchema, `describable` = the meta-schema's own
    constraints, `erase` = what a description cannot carry), tied to the SDK by the family c09describe. *)
 From Verif Require Import Base.Prelude Base.Str Base.Float Base.GoVal
   Schema.Regex Schema.Units Schema.Syntax Schema.Ops Schema.Cbor Schema.Describe
-  Proofs.DescribeBase Proofs.C09Describe Proofs.C09Fixpoint Proofs.C09Plugin Proofs.C09Behaviour Proofs.C09Transport Proofs.C09Link Proofs.C09Behaviour2.
+  Proofs.DescribeBase Proofs.C09Describe Proofs.C09Fixpoint Proofs.C09Plugin Proofs.C09Behaviour Proofs.C09Transport Proofs.C09Link Proofs.C09Behaviour2
+  Schema.MetaTable Generated.Tables Proofs.C09AccBase Proofs.C09AccTable Proofs.C09AccReader Proofs.C09AccReader2 Proofs.C09AccReader3 Proofs.C09AccPlugin.
 Open Scope string_scope.
 
 (* C09_fixpoint.  For EVERY scope s that is describable, whose pattern sources regexp.Compile maps to their
@@ -330,13 +332,160 @@ Example C09_plugin_foreign_rejected :
   | Err _ => true | _ => false end = true.
 Proof. vm_compute. reflexivity. Qed.
 
-(* ---- C09_accepted: DESIGN section 10 fall-back ----
-   "SelfSerialize(s) is accepted by the meta-schema" is, in this model, the first conjunct of C09_fixpoint /
-   C09_plugin: `rebuild` IS the meta-schema (Schema/Describe.v `parse_*`, hand-written from
-   schema/schema_schema.go) followed by the link step, and it returns Ok.  That the hand-written reader agrees
-   with the 1300-line Go table is a TEST, not a theorem: family c09describe (every generated description)
-   and family c10mutants (every single mutation of 40 / 400 descriptions: accept / reject / re-description
-   compared).  No Coq theorem is claimed about schema_schema.go itself. *)
+(* ---- C09_accepted: over the GENERATED meta-schema table (DESIGN 2.4, section 5 C09) ----
+   `meta_scope` (Schema/MetaTable.v) is the table schema/schema_schema.go has NOW: `DescribeScope().SelfSerialize()`
+   of the SDK built from the tree under test, re-dumped into Generated/MetaDesc.v on every run and turned into a
+   `schema` by the model's reader (vm_compute; Example meta_scope_rebuilt: the reader accepts the table's own
+   description, link step included).
+
+   C09_accepted.  For EVERY describable scope s (all fourteen kinds, at any nesting) whose pattern sources
+   regexp.Compile accepts (the oracle of the environment), the GENERIC Unserialize of Schema/Ops.v run on that
+   table accepts `describe s`, at every fuel from the explicit bound `c09_fuel s` on; boolean words, unit parser
+   and json oracle universally quantified.  Proved one meta object at a time (Proofs/C09AccTable.v): a field
+   `describe` writes that the table does not declare, a declared type that refuses what `describe` writes (a
+   bound, a kind, a member kind missing from a one-of), a required field `describe` may omit, an inter-field rule
+   or a disabled meta property breaks the lemma of that object - on the run that re-dumps the table. *)
+Theorem C09_accepted :
+  forall (words : list (string * bool)) (pu : units -> string -> option fl) (jor : oracles) os root,
+  let s := SScope os root in
+  describable s = true ->
+  (forall p, In p (pats_of s) -> o_re_ok jor (fst p) = true) ->
+  forall fuel, (c09_fuel s <= fuel)%nat ->
+  exists x, unser words pu fuel (mkEnv [] [] jor) meta_scope (describe s) = Ok x.
+Proof.
+  intros words pu jor os root s Hd Hp. exact (scope_description_accepted words pu jor os root (conj Hd Hp)).
+Qed.
+Print Assumptions C09_accepted.
+
+(* the same, kind by kind: the description of EVERY describable type (not only scopes) is accepted by the one-of
+   over type_id that the table uses for list items, map values and property types, in the table's own scope *)
+Theorem C09_accepted_type :
+  forall (words : list (string * bool)) (pu : units -> string -> option fl) (jor : oracles) (s : schema),
+  describable s = true ->
+  (forall p, In p (pats_of s) -> o_re_ok jor (fst p) = true) ->
+  forall fuel, (2 + tfuel s <= fuel)%nat ->
+  exists x, unser words pu fuel (mkEnv meta_objs [] jor) vtype (d_type s) = Ok x.
+Proof.
+  intros words pu jor s Hd Hp.
+  exact (A_vtype words pu meta_objs (fun _ _ H => H) jor (tfuel s) s
+           (table_accepts words pu meta_objs (fun _ _ H => H) jor s (conj Hd Hp))).
+Qed.
+Print Assumptions C09_accepted_type.
+
+(* non-vacuity: the table (19 meta objects) really is what is run; the example scope of every feature is accepted
+   at the stated fuel, and a description without its required `objects` is refused by the same table *)
+Example C09_example_accepted :
+  List.length meta_objs = 19%nat
+  /\ is_ok (unser y_words y_pu (c09_fuel y_scope) (mkEnv [] [] y_jor) meta_scope (describe y_scope)) = true
+  /\ is_err (unser y_words y_pu 50 (mkEnv [] [] y_jor) meta_scope (dobj [("root", vstr "A")])) = true.
+Proof. repeat split; vm_compute; reflexivity. Qed.
+
+(* C09_accepted_plugin.  The same for whole plugin schemas (the hello message): the GENERATED Schema meta-scope
+   (DescribeSchema().SelfSerialize(): what UnserializeSchema / Client.ReadSchema run) accepts `describe_plugin p` for
+   EVERY plugin schema whose step / output / signal ids and displays satisfy the meta-schema and whose data schemas
+   (inputs, outputs, signal handler and emitter data) are describable scopes with compiling patterns.  The Schema
+   table contains the Scope table's objects unchanged (Proofs/C09AccPlugin.v meta_objs_in_schema_objs, by
+   computation), plus Schema, Step, StepOutput, Signal - each with its own lemma. *)
+Theorem C09_accepted_plugin :
+  forall (words : list (string * bool)) (pu : units -> string -> option fl) (jor : oracles) (p : dplugin),
+  cgood_plugin jor p ->
+  forall fuel, (S (plugin_fuel p) <= fuel)%nat ->
+  exists x, unser words pu fuel (mkEnv [] [] jor) meta_schema_scope (describe_plugin p) = Ok x.
+Proof. exact plugin_description_accepted. Qed.
+Print Assumptions C09_accepted_plugin.
+
+Example C09_example_accepted_plugin :
+  cgood_plugin y_jor y_plugin
+  /\ is_ok (unser y_words y_pu (S (plugin_fuel y_plugin)) (mkEnv [] [] y_jor) meta_schema_scope (describe_plugin y_plugin)) = true.
+Proof.
+  split; [|vm_compute; reflexivity].
+  assert (G : cgood_scope y_jor y_data).
+  { split; [reflexivity|]. split; [vm_compute; reflexivity|]. intros p _. reflexivity. }
+  constructor; [|constructor].
+  cbv [y_plugin cgood_step cgood_output cgood_signal fst snd st_id st_input st_outputs st_handlers st_emitters st_display
+       so_schema so_display so_error sg_id sg_data sg_display].
+  repeat match goal with
+         | |- _ /\ _ => split
+         | |- Forall _ _ => constructor
+         | |- cgood_scope _ _ => exact G
+         | |- _ = true => vm_compute; reflexivity
+         end.
+Qed.
+
+(* C09_table_agrees_with_reader_partial.  The hand-written reader (`rebuild`, Schema/Describe.v) against the table:
+   (a) on d = describe s, s describable and linking: BOTH accept (the table: C09_accepted; the reader: C09_fixpoint);
+   (b) for the kinds without fields (bool, any, pattern) the table accepts a value - ANY value - iff the reader does;
+       for the string, integer and float kinds whatever value the table accepts the reader accepts (string: given that
+       the environment's record of regexp.Compile and the reader's parser agree on what compiles) - so all six scalar
+       kinds have the direction table => reader on arbitrary values;
+   (c) every default of the table is listed, and for each the value the reader assumes for an absent field is the
+       table's default text as encoding/json decodes it (meta_json, recorded from the real library on every run):
+       Property.required, Object.id_unenforced, OneOf*.discriminator_inlined, Ref.namespace.
+   NOT proved (partial): "accepted by the table => accepted by the reader" for arbitrary values of the non-scalar
+   kinds (enums, list, map, object, one-of, ref, scope: the Display / Property objects and the recursive positions
+   would each need the converse of their acceptance lemma, `obj_inv` of Proofs/C09AccReader3.v is the tool); that
+   direction is tested by family c10mutants on every mutated description. *)
+Theorem C09_table_agrees_with_reader_partial :
+  (* (a) *)
+  (forall (words : list (string * bool)) (pu : units -> string -> option fl) (cu : units) (rp : string -> option re)
+          (jor : oracles) os root,
+     let s := SScope os root in
+     describable s = true ->
+     (forall p, In p (pats_of s) -> rp (fst p) = Some (snd p)) ->
+     (forall p, In p (pats_of s) -> o_re_ok jor (fst p) = true) ->
+     link_ok jor [] s = true ->
+     (exists s', rebuild words pu cu rp jor (describe s) = Ok s')
+     /\ (exists x, unser words pu (c09_fuel s) (mkEnv [] [] jor) meta_scope (describe s) = Ok x))
+  (* (b) *)
+  /\ (forall words pu e f d,
+        ((exists x, unser words pu (S f) e (mobj "BoolSchema") d = Ok x) <-> parse_empty SBool d = Ok SBool)
+        /\ ((exists x, unser words pu (S f) e (mobj "AnySchema") d = Ok x) <-> parse_empty SAny d = Ok SAny)
+        /\ ((exists x, unser words pu (S f) e (mobj "Pattern") d = Ok x) <-> parse_empty SPattern d = Ok SPattern))
+  (* (b') string: table => reader, on ANY value; the reader's unit table is Generated/Tables.v unit_characters,
+     which is also what the table carries (Proofs/C09AccReader2.v tab_chars_units_eq) *)
+  /\ (forall words pu e (rp : string -> option re),
+        (forall s, o_re_ok (e_or e) s = true -> exists r, rp s = Some r) ->
+        forall f d x, unser words pu (S (S f)) e (mobj "String") d = Ok x ->
+        exists s', mp_string unit_characters rp d = Ok s')
+  (* (b'') integer and float: table => reader, on ANY value and at any fuel, through the nested Units and Unit
+     objects and the multipliers map (references resolved in the table's own scope) *)
+  /\ (forall words pu jor f d x,
+        unser words pu f (mkEnv meta_objs [] jor) (mobj "Int") d = Ok x -> exists s', mp_int d = Ok s')
+  /\ (forall words pu jor f d x,
+        unser words pu f (mkEnv meta_objs [] jor) (mobj "Float") d = Ok x -> exists s', mp_float pu d = Ok s')
+  (* (c) *)
+  /\ table_defaulted_fields =
+       [("Object", "id_unenforced"); ("OneOfIntSchema", "discriminator_inlined");
+        ("OneOfStringSchema", "discriminator_inlined"); ("Property", "required"); ("Ref", "namespace")]
+  /\ (forall words rec fs p, alookup "required" fs = None -> parse_property words rec (dobj fs) = Ok p ->
+        vbool (p_required p) = table_default "Property" "required")
+  /\ (forall words rec fs id un props, alookup "id_unenforced" fs = None ->
+        parse_object words rec (dobj fs) = Ok (SObject id un props) -> vbool un = table_default "Object" "id_unenforced")
+  /\ (forall words rec ik fs types ik' field inl, alookup "discriminator_inlined" fs = None ->
+        parse_oneof words rec ik (dobj fs) = Ok (SOneOf types ik' field inl) ->
+        vbool inl = table_default (if ik then "OneOfIntSchema" else "OneOfStringSchema") "discriminator_inlined")
+  /\ (forall fs id ns d, alookup "namespace" fs = None -> parse_ref (dobj fs) = Ok (SRef id ns d) ->
+        vstr ns = table_default "Ref" "namespace").
+Proof.
+  refine (conj _ (conj table_agrees_empty_kinds (conj _
+           (conj (fun words pu jor => table_int_implies_reader words pu meta_objs (fun _ _ H => H) jor)
+           (conj (fun words pu jor => table_float_implies_reader words pu meta_objs (fun _ _ H => H) jor)
+           (conj table_defaulted_fields_are
+           (conj reader_default_required (conj reader_default_id_unenforced
+              (conj reader_default_inlined reader_default_namespace))))))))).
+  - intros words pu cu rp jor os root s Hd Hp Hre Hl. split.
+    + destruct (C09_fixpoint words pu cu rp jor os root Hd Hp Hl) as (s' & H & _). exists s'. exact H.
+    + apply (C09_accepted words pu jor os root Hd Hre). apply le_n.
+  - intros words pu e rp Hrp f d x H. rewrite <- tab_chars_units_eq.
+    exact (table_string_implies_reader words pu e rp Hrp f d x H).
+Qed.
+Print Assumptions C09_table_agrees_with_reader_partial.
+
+(* non-vacuity of (c): the four defaults as the table has them now *)
+Example C09_example_table_defaults :
+  table_default "Property" "required" = vbool true /\ table_default "Object" "id_unenforced" = vbool false
+  /\ table_default "OneOfIntSchema" "discriminator_inlined" = vbool false /\ table_default "Ref" "namespace" = vstr "".
+Proof. repeat split; vm_compute; reflexivity. Qed.
 
 (* ---- what cannot be described (open findings D28, D29, D69): the hypothesis `describable` is necessary ---- *)
 Definition w_scope (t : schema) : schema := SScope [("A", SObject "A" false [("p", y_prop t)])] "A".
